@@ -669,7 +669,9 @@ def gen_emit(ft, node: int) -> list:
         elif k == 4:
             ops.append(['flush_err'])
         else:
-            ops.append(['out', 'part-' + tok])      # a partial line, never terminated
+            ops.append(['out', 'part-' + tok])      # output that is never newline-terminated
+    if ft.chance(1, 6):
+        ops.append(['die'])                         # the task's process dies right after (os._exit / SIGKILL)
     return ops
 
 
@@ -682,17 +684,29 @@ def check_C19(sc, out, facts) -> list:
     for n, lst in facts.ends.items():
         if last_end is None or lst[0][0] > last_end[0]:
             last_end = (lst[0][0], n)
-    for idx, e in enumerate(out.events):
-        if e[0] != 'emit':
-            continue
+    # nodes whose process died while running: what they had only written into their own (proxied) stdout /
+    # stderr buffers dies with them; logger records, and output they had explicitly flushed, were handed over
+    died = {e[4] for e in out.events if e[0] == 'kill' and e[4] is not None}
+    flushed_after: dict = {}
+    emits = [(idx, e) for idx, e in enumerate(out.events) if e[0] == 'emit']
+    for pos, (idx, e) in enumerate(emits):
+        node, kind = e[1], e[2]
+        if kind in ('print', 'out', 'err'):
+            want = 'flush_err' if kind == 'err' else 'flush_out'
+            flushed_after[idx] = any(e2[1] == node and e2[2] == want for _i2, e2 in emits[pos + 1:])
+    for idx, e in emits:
         node, kind, payload = e[1], e[2], e[3]
-        if kind in ('flush_out', 'flush_err') or payload is None:
+        if kind in ('flush_out', 'flush_err', 'die') or payload is None:
             continue
         tok = payload.strip()
         if kind == 'out':
             tok = tok[len('part-'):]
         count = sum(m.count(tok) for m in delivered)
-        required = kind in ('log', 'print', 'err')
+        # everything a task wrote is due by the time run_tasks returns (a last fragment without a newline
+        # included); for a task that died only what had left its process
+        required = True
+        if node in died and kind != 'log':
+            required = flushed_after.get(idx, False)
         if count > 1:
             vs.append(O.V('C19', 'duplicated', f'{kind} message {tok} of node {node} was delivered {count} times', kind=kind))
         elif count == 0 and required:
@@ -700,7 +714,8 @@ def check_C19(sc, out, facts) -> list:
             vs.append(O.V('C19', 'lost', f'{kind} message {tok} of node {node} was not delivered before run_tasks returned'
                           + (' (it arrived later)' if in_late else '') +
                           f'; node finished {"last" if last_end and last_end[1] == node else "earlier"}',
-                          kind=('logger' if kind == 'log' else 'stream'), last_finisher=bool(last_end and last_end[1] == node)))
+                          kind=('logger' if kind == 'log' else ('fragment' if kind == 'out' else 'stream')),
+                          last_finisher=bool(last_end and last_end[1] == node), task_died=(node in died)))
     return vs[:6]
 
 
